@@ -111,6 +111,8 @@ func (w *World) exec(cs *clientState, idx int, op Op) *Rec {
 	if t := s.Current(); t != nil {
 		task = t.Name
 	}
+	// keys written as "hex:.." in a scenario (bytes that JSON cannot carry) are used decoded from here on
+	op.Key, op.End = string(Bytes(op.Key)), string(Bytes(op.End))
 	r := &Rec{Client: cs.id, Idx: idx, Op: op, Task: task, Node: op.Node}
 	switch op.K {
 	case "sleep":
